@@ -10,12 +10,12 @@ import (
 // v2Roles identifies unexported types and fields of the v2 package by their role, so that renaming
 // them does not invalidate the rules.
 type v2Roles struct {
-	ok                                     bool
-	threshold, q, docs, dict               string // fields of Classifier
-	docType                                types.Type // indexedDocument (named)
-	docTypeName                            string
-	tokens, matches                        string // fields of indexedDocument
-	tokenID                                *types.Named
+	ok                       bool
+	threshold, q, docs, dict string     // fields of Classifier
+	docType                  types.Type // indexedDocument (named)
+	docTypeName              string
+	tokens, matches          string // fields of indexedDocument
+	tokenID                  *types.Named
 }
 
 var (
